@@ -1,6 +1,7 @@
 package phase0
 
 import (
+	"encoding/json"
 	"github.com/protolambda/zrnt/eth2/beacon/common"
 	"github.com/protolambda/ztyp/codec"
 	"github.com/protolambda/ztyp/tree"
@@ -182,6 +183,13 @@ func AsPendingAttestation(v View, err error) (*PendingAttestationView, error) {
 }
 
 type PendingAttestations []*PendingAttestation
+
+func (li PendingAttestations) MarshalJSON() ([]byte, error) {
+	if li == nil {
+		return []byte("[]"), nil // encode as empty list, not null
+	}
+	return json.Marshal([]*PendingAttestation(li))
+}
 
 func (a *PendingAttestations) Deserialize(spec *common.Spec, dr *codec.DecodingReader) error {
 	return dr.List(func() codec.Deserializable {
